@@ -15,6 +15,10 @@
 #include <unistd.h>
 #include <sys/stat.h>
 #include "libconfig.h"
+#include "parsectx.h"
+#include "scanctx.h"
+#include "grammar.h"
+#include "scanner.h"
 
 static config_t cfg;
 static int dtor_on = 0;
@@ -394,6 +398,29 @@ int main(int argc, char **argv)
       else { char *b = malloc(st.st_size + 1); size_t n = fread(b, 1, st.st_size, f); puthexn(b, n); free(b); }
       if (f) fclose(f);
       free(p);
+    }
+    else if (OP("lex", 2)) {
+      /* token stream of libconfig_yylex on a string: "<token>" or "<token>:<value>" per token */
+      char *text = unhex(w[1], NULL); yyscan_t scanner; struct scan_context sctx; YYSTYPE lval; int t, k = 0;
+      config_t tmp; config_init(&tmp);
+      libconfig_scanctx_init(&sctx, NULL); sctx.config = &tmp;
+      libconfig_yylex_init_extra(&sctx, &scanner);
+      libconfig_yy_scan_string(text ? text : "", scanner);
+      libconfig_yyset_lineno(1, scanner);
+      while ((t = libconfig_yylex(&lval, scanner)) > 0 && k++ < 100000) {
+        printf("%d", t);
+        if (t == TOK_STRING) { printf(":"); puthex(lval.sval); free(lval.sval); }
+        else if (t == TOK_NAME) { printf(":"); puthex(lval.sval); }
+        else if (t == TOK_BOOLEAN || t == TOK_INTEGER || t == TOK_HEX) printf(":%d", lval.ival);
+        else if (t == TOK_INTEGER64 || t == TOK_HEX64) printf(":%lld", lval.llval);
+        else if (t == TOK_FLOAT) { printf(":"); putdbl(lval.fval); }
+        printf("@%d ", libconfig_yyget_lineno(scanner));
+      }
+      printf("eof");
+      { void *b; while ((b = libconfig_scanctx_pop_include(&sctx)) != NULL) libconfig_yy_delete_buffer((YY_BUFFER_STATE)b, scanner); }
+      libconfig_yylex_destroy(scanner);
+      libconfig_strvec_delete(libconfig_scanctx_cleanup(&sctx));
+      config_destroy(&tmp); free(text);
     }
     else if (OP("err", 1)) { printf("%d ", config_error_type(&cfg)); puthex(config_error_text(&cfg)); printf(" "); puthex(config_error_file(&cfg)); printf(" %d", config_error_line(&cfg)); }
     else if (OP("dump", 1)) {
